@@ -229,7 +229,13 @@ def check_csv(case, ctx):
     if ds.empty:
         return
     _counter[0] += 1
-    d = os.path.join(ctx.scratch, "t%d" % _counter[0])
+    # every second case rewrites the files of the case before it (same paths, new content), as a user re-running after
+    # regenerating a file does within one session: the table must be counted from the pairs now in the file
+    d = os.path.join(ctx.scratch, "t%d" % (_counter[0] // 2))
+    if os.path.isdir(d):
+        ctx.label("csv/files-rewritten-in-place")
+        import shutil
+        shutil.rmtree(d)
     os.makedirs(d)
     paths, _ = mat.write_files(spec, d, case["kind"])
     T = case["thresholds"]
